@@ -264,6 +264,12 @@ def flat_model(draw, opts):
     # ---- parameters ------------------------------------------------------
     vars_.append(D.var("p", prefix="parameter", value=draw(st.sampled_from([R("1.5"), R("2.0"), R("0.75")])),
                        attrs=attrs_lit(draw, ["min", "max"])))
+    if draw(st.integers(0, 3)) == 0:
+        # a matrix-shaped parameter ahead of the parameters whose attributes depend on p
+        shape = draw(st.sampled_from([[2, 2], [2, 3], [3, 2]]))
+        vars_.append(D.var("pm", prefix="parameter", dims=shape,
+                           value=["arrlit", [["arrlit", [R("%d.%d" % (i + 1, j + 1)) for j in range(shape[1])]] for i in range(shape[0])]]))
+        feats.add("matrix_parameter")
     if has_q:
         qv = draw(st.sampled_from([R("3.0"), R("0.5"), mul(I(2), p), add(p, I(1)), mul(p, p)]))
         qa = {}
@@ -295,6 +301,9 @@ def flat_model(draw, opts):
         vars_.append(D.var("s%d" % i, "String", prefix=draw(st.sampled_from(["parameter", "parameter", "constant"])),
                            value=["str", draw(st.sampled_from(["fast", "slow", "a b", ""]))]))
     # ---- inputs ----------------------------------------------------------
+    if draw(st.integers(0, 4)) == 0:
+        vars_.append(D.var("um", prefix="input", dims=draw(st.sampled_from([[2, 2], [2, 3]]))))  # matrix input first
+        feats.add("matrix_input")
     if has_u:
         vars_.append(D.var("u", prefix="input", attrs=attrs_for("Real", False, ["min", "max", "nominal", "fixed"])))
     if has_ua:
